@@ -63,6 +63,12 @@ MUTANTS = {
         ('budget_ignored', r'ReceiveChannelUnreliable::new\(channel_config\.channel_id, channel_config\.max_memory_usage_bytes\)', 'ReceiveChannelUnreliable::new(channel_config.channel_id, 0)'),
         ('send_order_wrong_kind', r'channel_send_order\.push\(ChannelOrder::Reliable\(channel_config\.channel_id\)\);', 'channel_send_order.push(ChannelOrder::Unreliable(channel_config.channel_id));'),
     ],
+    'U18': [
+        ('horizon_shortened', r'let DISCARD_AFTER: Duration = Duration::from_secs\(3\);', 'let DISCARD_AFTER: Duration = Duration::from_secs(2);'),
+        ('comparison_flipped', r'if self\.current_time - sent_packet\.sent_at >= DISCARD_AFTER \{', 'if self.current_time - sent_packet.sent_at < DISCARD_AFTER {'),
+        ('time_not_advanced', r'self\.current_time \+= duration;', ''),
+        ('discard_with_old_time', r'discard_all_summary\(&mut self\.receive_unreliable_channels, self\.current_time\);', 'discard_all_summary(&mut self.receive_unreliable_channels, Duration::ZERO);'),
+    ],
     'U17': [
         ('final_flush_dropped', r'if !small_messages\.is_empty\(\) \{', 'if false {'),
         ('flush_sequence_not_advanced', r'(messages: std::mem::take\(&mut small_messages\),\s*\}\);\s*)\*packet_sequence \+= 1;', r'\1'),
